@@ -13,7 +13,9 @@ import (
 	"io"
 	"math/rand"
 	"reflect"
+	"runtime"
 	"sort"
+	"strings"
 	"sync"
 	"unsafe"
 
@@ -325,6 +327,7 @@ type nxCluster struct {
 	spos        int
 	lazy        map[uint64]bool // hosts whose apply worker is being held back (deviation)
 	scriptHold  map[uint64]bool // of those, the ones held by the scenario script
+	rnd         *nxRand         // the deterministic identifier source of this cluster
 	used        struct{ timeouts, ticks, crashes, drops, dups, reorders, writes, reads, lazy, heartbeats, transfers, stops, partitions, holdJobs int }
 	recordHooks bool
 	pool        *sync.Pool
@@ -359,22 +362,39 @@ func nxPeers(n int) map[uint64]string {
 // same identifiers.
 type nxRand struct{ n uint64 }
 
-func (r *nxRand) Uint64() uint64 { r.n++; return r.n*0x9E3779B97F4A7C15 | 1 }
-func (r *nxRand) Int63() int64   { return int64(r.Uint64() >> 1) }
-func (r *nxRand) Seed(int64)     {}
+func (r *nxRand) Uint64() uint64 {
+	// raft's election jitter is overwritten by the harness after every step
+	// (VPeer.Normalize / SetElectionTimeoutValue): those draws get a constant and
+	// do not advance the sequence, so that the number of identifiers handed out
+	// so far (part of the canonical state) does not depend on role changes
+	for skip := 1; skip <= 4; skip++ {
+		if pc, _, _, ok := runtime.Caller(skip); ok {
+			if fn := runtime.FuncForPC(pc); fn != nil && strings.HasSuffix(fn.Name(), "setRandomizedElectionTimeout") {
+				return 5
+			}
+		}
+	}
+	r.n++
+	return r.n*0x9E3779B97F4A7C15 | 1
+}
+func (r *nxRand) Int63() int64 { return int64(r.Uint64() >> 1) }
+func (r *nxRand) Seed(int64)   {}
 
-func nxResetRandom() {
+func nxResetRandom() *nxRand {
 	lr := random.NewLockedRand()
 	f := reflect.ValueOf(lr).Elem().FieldByName("source")
-	var src rand.Source64 = &nxRand{}
+	nr := &nxRand{}
+	var src rand.Source64 = nr
 	reflect.NewAt(f.Type(), unsafe.Pointer(f.UnsafeAddr())).Elem().Set(reflect.ValueOf(&src).Elem())
 	random.LockGuardedRand = lr
+	return nr
 }
 
 func newNxCluster(cfg *nxCfg) *nxCluster {
-	nxResetRandom()
+	nr := nxResetRandom()
 	c := &nxCluster{cfg: cfg, byID: map[uint64]*nxHost{}, leaderOf: map[uint64]uint64{}, voteOf: map[[2]uint64]uint64{},
 		applied: map[uint64]string{}, completedW: map[uint64]bool{}, lazy: map[uint64]bool{}, scriptHold: map[uint64]bool{}, nextVal: 100}
+	c.rnd = nr
 	c.pool = &sync.Pool{}
 	c.pool.New = func() interface{} {
 		obj := &RequestState{}
